@@ -24,6 +24,8 @@ type c15Synth struct {
 	Blank int `json:"blank,omitempty"`
 }
 
+var c15DirSets = [][]string{nil, {"vendor/acme/"}, {"/opt/licenses/"}, {"./", "third_party/x.txt/", ""}, {"a/b/c/d/", "../up/"}}
+
 type c15Query struct {
 	Kind  string `json:"k"` // file | edited | variant | concat | arbitrary
 	File  int    `json:"f"`
@@ -40,6 +42,8 @@ type c15Case struct {
 	// Decoy: before the archive under test is loaded, another archive is built and loaded in the same process that has
 	// the same file names but different contents (a history: results must not depend on what was loaded earlier).
 	Decoy bool `json:"decoy,omitempty"`
+	// Dirs > 0: the files are handed to ArchiveLicenses as paths with a directory part (c15DirSets[Dirs]).
+	Dirs int `json:"dirs,omitempty"`
 }
 
 var c15Vocab = strings.Fields("this software license grants rights to use copy modify and distribute the work under terms of version code original provided without warranty liability holder notice conditions following redistribution source binary forms permitted")
@@ -56,6 +60,9 @@ func smallLicenseFiles() []licFile {
 
 func c15Gen(t *rapid.T) interface{} {
 	c := &c15Case{Thr: lib.PickFloat(t, []float64{0.5, 0.8, 0.8, 0.9, 1.0}, "thr"), Decoy: lib.IntN(t, 0, 2, "decoy") == 0}
+	if lib.IntN(t, 0, 3, "withDirs") == 0 {
+		c.Dirs = lib.IntN(t, 1, len(c15DirSets)-1, "dirs")
+	}
 	n := lib.IntN(t, 1, 12, "nfiles")
 	c.Files = lib.Ints(t, n, n, 0, 400, "files")
 	ns := lib.IntN(t, 0, 2, "nsynth")
@@ -213,7 +220,12 @@ func c15Check(ci interface{}) lib.Outcome {
 			}
 		}
 	}
-	arch, err := buildArchive(files)
+	var dirs []string
+	if c.Dirs > 0 {
+		dirs = c15DirSets[c.Dirs%len(c15DirSets)]
+		desc += fmt.Sprintf(" (files given as paths under %q)", dirs)
+	}
+	arch, err := buildArchiveDirs(files, dirs)
 	if err != nil {
 		return lib.Outcome{Violation: fmt.Sprintf("%s: ArchiveLicenses failed: %v", desc, err)}
 	}
@@ -467,6 +479,6 @@ var _ = stringclassifier.DefaultConfidenceThreshold
 
 func TestVerif_C15(t *testing.T) {
 	lib.Run(t, lib.Spec{ID: "C15", Part: "archive-roundtrip",
-		Rule: "archives of 1-12 license files (<= 8 KiB, drawn order) plus 0-2 synthetic licenses served through the swapped package variable ReadLicenseFile; thresholds {0.5,0.8,0.9,1}; in a third of the cases a decoy archive with the same file names and other contents is built and loaded first; 2-6 queries: a file itself, edited (word deletions/substitutions) in context, presentation variants, concatenations, arbitrary license-word text; oracle: no error, every file found under its own name at 1.0, MultipleMatch lists (both header modes) and NearestMatch identical to a classifier built directly from the normalised texts with fresh search sets, no name outside the archive; non-trivial = more than one file and an edited / concatenated query",
+		Rule: "archives of 1-12 license files (<= 8 KiB, drawn order) plus 0-2 synthetic licenses served through the swapped package variable ReadLicenseFile; in a quarter of the cases the files are given as paths with a directory part (relative, absolute, ./, ../); thresholds {0.5,0.8,0.9,1}; in a third of the cases a decoy archive with the same file names and other contents is built and loaded first; 2-6 queries: a file itself, edited (word deletions/substitutions) in context, presentation variants, concatenations, arbitrary license-word text; oracle: no error, every file found under its own name at 1.0, MultipleMatch lists (both header modes) and NearestMatch identical to a classifier built directly from the normalised texts with fresh search sets, no name outside the archive; non-trivial = more than one file and an edited / concatenated query",
 		New:  func() interface{} { return &c15Case{} }, Gen: c15Gen, Check: c15Check})
 }
